@@ -36,7 +36,9 @@ def gen_fields(rng, size, l2_safe):
         elif rng.random() < 0.35:
             k = rng.random()
             if k < 0.4:
-                conv = adef.mk_direct(rng.choice(["crate::convtypes::Ty", "Ty", "crate::convtypes::Other"]))
+                # (a path that starts with `super` is relative to the DEVICE's module: it gets the `super::` prefix like
+                #  every path that is not anchored with `::` or `crate` — seed C06-7 left it unprefixed)
+                conv = adef.mk_direct(rng.choice(["crate::convtypes::Ty", "Ty", "crate::convtypes::Other", "super::convtypes::Ty"]))
             elif k < 0.6:
                 conv = adef.mk_direct(rng.choice(["crate::convtypes::TryTy", "TryTy"]), True)
             elif not l2_safe and e - s <= 32:
@@ -224,7 +226,13 @@ def l2_phase(ctx, exe, rng, nmods):
                             arg = f"{v}{s['carrier']}" if v >= 0 else f"({v}{s['carrier']})"
                         else:
                             v = rng.choice([0, 1, rng.randint(0, (1 << min(cb - 1, 100)) - 1)])
-                            tyname = s["arg"].replace("super::", "crate::convtypes::") if s["arg"].startswith("super::") else s["arg"]
+                            # the emitted path is relative to the field_sets module of crate::<mod>: one `super` is the device
+                            # module (where `Ty` is a private glob import of crate::convtypes), two are the crate root
+                            tyname = s["arg"]
+                            if tyname.startswith("super::super::"):
+                                tyname = "crate::" + tyname[len("super::super::"):]
+                            elif tyname.startswith("super::"):
+                                tyname = "crate::convtypes::" + tyname[len("super::"):]
                             arg = f"{tyname}({v})"
                     main.append(f'  {{ let mut t = fs; t.{s["name"]}({arg}); println!("{cid} {j}.{rep} s{k} {{}}", mock::hex(&<[u8; {n}]>::from(t))); }}')
                     qs.append(("set", cid, j, k, v, b, rep))
